@@ -221,6 +221,83 @@ def confirm_pretty(prop, v):
     return ('reproduced' if any(o[1] != vals[0][1] for o in vals[1:]) else 'not_reproduced'), detail
 
 
+def run_diff_display(progs, job):
+    """Display for NodeId on two feature configurations, for a formatter with symbolic width / precision presence: the emitted
+    text must be the same (write!(f, "{}", x) ignores the caller's width and precision, Formatter::pad honours them)"""
+    import fmtmodel
+    from multistep import call_all
+    t0 = time.time()
+    res = new_result(job)
+    fmtmodel.install()
+    obs = []
+    qi = z3.BitVec('qi', 64); qs = z3.BitVec('qs', 16)
+    hw = z3.Bool('fmt_has_width'); hp = z3.Bool('fmt_has_precision')
+    engs = []
+    for key in (tuple(job['base']), tuple(job['other'])):
+        prog = progs[key]
+        eng = Engine(prog, max_steps=20000); engs.append(eng)
+        eng.solver.add(qi != 0)
+        st = State()
+        idcell = st.new_cell(mk_id(qi, qs)); fmtcell = st.new_cell(Agg('Formatter', (S(False, 'bool'), S(hw, 'bool'), S(hp, 'bool'))))
+        dfn = [f for (t, f) in prog.methods.get(('NodeId', 'fmt'), []) if t == 'Display']
+        if not dfn: raise Unsupported('no Display for NodeId')
+        outs = []
+        for o in call_all(eng, st, dfn[0], [Ref(idcell, ()), Ref(fmtcell, ())]):
+            res['paths'] += 1; res['steps'] += o.state.steps
+            outs.append((list(o.state.pc), o.kind, getattr(o.state, 'out', ())))
+        obs.append(outs)
+    eng = engs[0]
+    tpd = fmtmodel.templates(progs[tuple(job['base'])])['display']
+    def canon(out):
+        """(kind, value term, honours_width_precision)"""
+        if len(out) != 1: return None
+        e_ = out[0]
+        if e_[0] == 'arg' and e_[1] == tpd and e_[2] == 'display' and isinstance(e_[3], S): return ('num', zb(e_[3]), False)
+        if e_[0] == 'pad' and isinstance(e_[1], fmtmodel.SymDisplay): return ('num', zb(e_[1].val), True)
+        return None
+    for (pca, ka, oa) in obs[0]:
+        for (pcb, kb, ob) in obs[1]:
+            pc = pca + pcb
+            if eng.check(pc) != z3.sat: continue
+            res['obligations'] += 1; res['assert_queries'] += 1
+            ca, cb = canon(oa), canon(ob)
+            if ka != kb or ca is None or cb is None:
+                eq = z3.BoolVal(ka == kb and oa == ob)
+            else:
+                same_mode = z3.BoolVal(ca[2] == cb[2])
+                eq = z3.And(ca[1] == cb[1], z3.Or(same_mode, z3.And(z3.Not(hw), z3.Not(hp))))
+            r = eng.check(pc + [z3.Not(eq)])
+            if r == z3.unsat: res['discharged'] += 1; res['nontrivial'] += 1
+            elif r == z3.unknown: res['unknown'] = 'query unknown'
+            else:
+                m = eng.solver.model()
+                res['violations'].append({'kind': 'custom', 'module': 'c17', 'confirm': 'confirm_display', 'checks': ['C17.same_display_of_id'], 'op': 'display', 'N': 0,
+                                          'cfg': job['other'][0], 'feat': [job['base'][1], job['other'][1]], 'pre': {'slots': [], 'first_free': None, 'last_free': None}, 'role': 'display',
+                                          'args': {'has_width': z3.is_true(m.eval(hw, model_completion=True)), 'has_precision': z3.is_true(m.eval(hp, model_completion=True))}})
+    res['samples'].append({'differential': 'Display for NodeId', 'configs': [job['base'], job['other']], 'formatter': 'symbolic presence of width and precision'})
+    res['feas_queries'] = sum(e_.nq for e_ in engs); res['wall'] = time.time() - t0
+    return res
+
+
+def confirm_display(prop, v):
+    import replay, os, subprocess
+    outs = {}; detail = {}
+    for feat in v.get('feat', ['std', 'nostd']):
+        env = dict(os.environ); env['CARGO_NET_OFFLINE'] = 'true'
+        td = os.path.join(replay.RDIR, 'target-' + feat); env['CARGO_TARGET_DIR'] = td
+        p = subprocess.run(['cargo', 'build', '--offline', '--quiet', '--no-default-features', '--features', 'ix-' + feat], cwd=replay.RDIR, env=env, stdout=subprocess.PIPE, stderr=subprocess.PIPE, text=True)
+        if p.returncode != 0:
+            detail[feat] = {'build_failed': p.stderr[-400:]}; continue
+        replay._built['feat-' + feat] = os.path.join(td, 'debug', 'replayer')
+        lines = ['new a 1'] + ['new n%d %d' % (k, k) for k in range(12)] + ['fmtid a', 'fmtid n10']
+        res = replay.run_script(lines, 'feat-' + feat)
+        outs[feat] = (res.get(len(lines) - 2), res.get(len(lines) - 1))
+        detail[feat] = {'printed': str(outs[feat])[:300]}
+    if len(outs) < 2: return 'not_reproduced', detail
+    vals = list(outs.values())
+    return ('reproduced' if any(o != vals[0] for o in vals[1:]) else 'not_reproduced'), detail
+
+
 def run_identity_job(progs_texts, job):
     """textual part: every function of the base configuration has an identical body (modulo module-path printing) in the other"""
     t0 = time.time()
